@@ -19,7 +19,7 @@ type node struct {
 }
 
 type val struct {
-	kind byte // 't' token, 'n' node, 'z' zero, 'l' list
+	kind byte // 't' token, 'e' Error (an ERROR token shifted as @error), 'n' node, 'z' zero, 'l' list
 	tok  hc.Token
 	n    *node
 	list []val
@@ -27,7 +27,7 @@ type val struct {
 
 func (v val) firstTok() hc.Token {
 	switch v.kind {
-	case 't':
+	case 't', 'e':
 		return v.tok
 	case 'n':
 		return v.n.first
@@ -55,6 +55,8 @@ func (v val) arg() hc.Arg {
 	switch v.kind {
 	case 't':
 		return hc.Arg{K: "t", V: v.tok.Seq, T: v.tok.Type}
+	case 'e':
+		return hc.Arg{K: "e", V: v.tok.Seq, T: v.tok.Type}
 	case 'n':
 		return hc.Arg{K: "n", V: v.n.id}
 	case 'l':
@@ -127,7 +129,12 @@ func SimulateWith(g *gram.Grammar, c *gram.CFG, tbl *lalr.Table, methodOf map[[2
 		case cell.Shift >= 0:
 			t := toks[pos]
 			pos++
-			stack = append(stack, entry{state: cell.Shift, v: val{kind: 't', tok: t}, begin: t.Seq, end: t.Seq})
+			k := byte('t')
+			if t.Type == 1 {
+				// a lexer ERROR token is handed to the parser as an Error value
+				k = 'e'
+			}
+			stack = append(stack, entry{state: cell.Shift, v: val{kind: k, tok: t}, begin: t.Seq, end: t.Seq})
 		default:
 			pi := cell.Reduces[0]
 			p := c.Prods[pi]
